@@ -1,6 +1,8 @@
 import AaVerif.Proto
 import AaVerif.Generated.Chains
 import AaVerif.Flags
+import AaVerif.Filter
+import AaVerif.Generated.Dists
 open Proto
 
 /-- model of a builder by name, when it is one of the literal replace lists -/
@@ -44,8 +46,33 @@ def suiteSetflags (f : List String) : String :=
     else "ok\t" ++ esc (Flags.setFlags flags t) ++ "\t0"
   | _ => "err\tbad-op"
 
+def mkTarget (dist abi ver : String) : Filter.Target :=
+  let fam := match Generated.families.find? (fun f => f.2.contains dist) with
+    | some f => f.1
+    | none => ""
+  { dist := dist.toList, family := fam.toList, abi := ("abi" ++ abi).toList,
+    version := ("apparmor" ++ ver).toList }
+
+def suiteFilter (f : List String) : String :=
+  match f with
+  | [dist, abi, ver, text] =>
+    match Filter.model (mkTarget (String.ofList (unesc dist)) abi ver) (unesc text) with
+    | some t => "ok\t" ++ esc t
+    | none => "unmodelled"
+  | _ => "err\tbad-op"
+
+/-- the specification and the well-formedness predicate on the same op -/
+def suiteFilterSpec (f : List String) : String :=
+  match f with
+  | [dist, abi, ver, text] =>
+    let t := unesc text
+    b2s (Filter.wf t) ++ "\t" ++ esc (Filter.specText (mkTarget (String.ofList (unesc dist)) abi ver) t)
+  | _ => "err\tbad-op"
+
 def main (args : List String) : IO Unit := do
   match args with
   | ["builder"] => serve suiteBuilder
   | ["setflags"] => serve suiteSetflags
+  | ["filter"] => serve suiteFilter
+  | ["filterspec"] => serve suiteFilterSpec
   | _ => IO.eprintln "usage: driver <suite>"
